@@ -29,8 +29,8 @@ REWRITES = [
      r"be64_from(\1)", "u64::from_be_bytes(E.try_into().unwrap()) -> be64_from(E) requiring E.len()==8"),
     ("R2", re.compile(r"((?:[A-Za-z_][A-Za-z0-9_]*|\((?:[^()]|\([^()]*\))*\))(?:\.[A-Za-z_][A-Za-z0-9_]*(?:\(\))?)*)\.to_be_bytes\(\)"),
      r"to_be_bytes_spec(\1)", "E.to_be_bytes() -> to_be_bytes_spec(E) (u32/u16 via trait)"),
-    ("R0-attr", re.compile(r"^[ \t]*#\[(?:default|inline|allow\([^\]]*\)|cfg\(any\(test, feature = \"hbs_lms_verif\"\)\)|cfg\(test\))\][ \t]*\n(?:[ \t]*[^\n]*LmsH2[^\n]*\n)?", re.M), "",
-     "inert attributes (#[default], #[inline], #[allow]) dropped; cfg(test)/hook-only LmsH2 lines dropped (default build)"),
+    ("R0-attr", re.compile(r"^[ \t]*#\[(?:default|inline|zeroize\(skip\)|allow\([^\]]*\)|cfg\(any\(test, feature = \"hbs_lms_verif\"\)\)|cfg\(test\))\][ \t]*\n(?:[ \t]*[^\n]*LmsH2[^\n]*\n)?", re.M), "",
+     "inert attributes (#[default], #[inline], #[allow], #[zeroize(skip)] of the dropped derive) dropped; cfg(test)/hook-only LmsH2 lines dropped (default build)"),
     ("R7", re.compile(r"panic!\((?:[^()]|\([^()]*\))*\)"), "vpanic()", "panic!(..) -> vpanic() whose precondition is false: reaching it is a failed obligation"),
     ("R13-param-ne", re.compile(r"([A-Za-z_][\w\.]*\.(lmots|lms)_parameter)\s*!=\s*([A-Za-z_][\w\.]*\.\2_parameter)"), r"!\2_parameter_eq(&\1, &\3)",
      "`a != b` on LmotsParameter/LmsParameter (derive(PartialEq)) -> !{lmots,lms}_parameter_eq(&a,&b): field-wise equality assumed"),
@@ -201,12 +201,15 @@ def parse_vspec(path):
     return u
 
 
-_GEN_DEFAULTS = {"MAX_ALLOWED_HSS_LEVELS": ("HBS_LMS_MAX_ALLOWED_HSS_LEVELS", "8")}
+_GEN_DEFAULTS = {"MAX_ALLOWED_HSS_LEVELS": ("HBS_LMS_MAX_ALLOWED_HSS_LEVELS", "8", None),
+                 # build.rs: MIN_WINTERNITZ_PARAMETER = min of the list, MAX_TREE_HEIGHT = max of the list
+                 "MIN_WINTERNITZ_PARAMETER": ("HBS_LMS_WINTERNITZ_PARAMETERS", "1, 1, 1, 1, 1, 1, 1, 1", min),
+                 "MAX_TREE_HEIGHT": ("HBS_LMS_TREE_HEIGHTS", "25, 25, 25, 25, 25, 25, 25, 25", max)}
 
 
 def gen_const(name):
     """Constants that build.rs generates from the environment: value of the default configuration (.cargo/config.toml)."""
-    env, dflt = _GEN_DEFAULTS[name]
+    env, dflt, red = _GEN_DEFAULTS[name]
     val = dflt
     try:
         with open(os.path.join(REPO, ".cargo", "config.toml")) as f:
@@ -215,6 +218,8 @@ def gen_const(name):
                 val = m.group(1).strip()
     except OSError:
         pass
+    if red is not None:
+        val = str(red(int(x) for x in val.split(",")))
     return "pub const %s: usize = %s; // generated constant (build.rs), default configuration" % (name, val)
 
 
@@ -350,9 +355,21 @@ def cut_item(file_rel, kind, name, impl=None, repo=None):
         if len(ms) != 1:
             raise Undecided("lost anchor: %s %s in %s matches %d times" % (kind, name, file_rel, len(ms)))
         m = ms[0]
-        ob = clean.find("{", m.end())
-        semi = clean.find(";", m.end())
-        if 0 <= semi and (ob < 0 or semi < ob):
+        # first `{` or `;` outside (), [] (tuple structs carry `;` inside array types)
+        ob, semi, depth = -1, -1, 0
+        for j in range(m.end(), len(clean)):
+            ch = clean[j]
+            if ch in "([":
+                depth += 1
+            elif ch in ")]":
+                depth -= 1
+            elif depth == 0 and ch == "{":
+                ob = j
+                break
+            elif depth == 0 and ch == ";":
+                semi = j
+                break
+        if semi >= 0:
             end = semi
         else:
             end = _match_brace(clean, ob)
